@@ -592,6 +592,65 @@ def run_replay(path):
 
 
 # ----------------------------------------------------------------------------- main
+def scope_isolation_job(job):
+    """One fresh process: two containers whose base type is given by the SAME NAME, resolved in two different scopes (two generated schema modules
+    that both define `measure`), used one after the other.  Every value of both scopes is offered to each container, before and after the other
+    container has resolved the name.  job = (kind, first scope index); returns a list of (key, what, case)."""
+    import types
+    kind, first = job
+    I, S = SDT.INTEGER, SDT.STRING
+    sa, sb = types.ModuleType('schema_a'), types.ModuleType('schema_b')
+    class measure_a(I):
+        pass
+    class measure_b(S):
+        pass
+    measure_a.__name__ = measure_b.__name__ = 'measure'
+    sa.measure, sb.measure = measure_a, measure_b
+    scopes = [(sa, measure_a(2), measure_a(3)), (sb, measure_b('u'), measure_b('v'))]
+    out = []
+
+    def make(scope):
+        if kind == 'ARRAY':
+            return ADT.ARRAY(1, 3, 'measure', scope=scope)
+        if kind == 'LIST':
+            return ADT.LIST(0, 3, 'measure', scope=scope)
+        return (ADT.BAG if kind == 'BAG' else ADT.SET)(0, 3, 'measure', scope=scope)
+
+    def put(c, k, v):
+        try:
+            if kind in ('ARRAY', 'LIST'):
+                c[1 + k if kind == 'ARRAY' else k] = v
+            else:
+                c.add(v)
+            return True
+        except Exception:
+            return False
+    order = [first, 1 - first]
+    conts = []
+    for step, si in enumerate(order):
+        scope, own1, own2 = scopes[si]
+        other = scopes[1 - si]
+        try:
+            c = make(scope)
+        except Exception as e:
+            out.append(('C19/%s/scope/constructor-rejected' % kind, 'container over measure in %s: %s' % (scope.__name__, e), {'kind': kind, 'order': order}))
+            continue
+        conts.append(c)
+        ok_own = put(c, 0, own1)
+        ok_foreign = put(c, 1, other[1])
+        when = 'first-use' if step == 0 else 'after-the-name-was-resolved-in-another-scope'
+        if not ok_own:
+            out.append(('C19/%s/scope/%s/rejected-legal' % (kind, when), '%s OF measure (scope %s) rejects a value of ITS measure (%s)' % (kind, scope.__name__, when), {'kind': kind, 'order': order}))
+        if ok_foreign:
+            out.append(('C19/%s/scope/%s/accepted-illegal' % (kind, when), '%s OF measure (scope %s) accepts a value of the OTHER scope\'s measure (%s)' % (kind, scope.__name__, when), {'kind': kind, 'order': order}))
+    # and once more on the first container, now that both scopes have resolved the name
+    if len(conts) == 2:
+        scope, own1, own2 = scopes[order[0]]
+        if not put(conts[0], 2 if kind == 'ARRAY' else 1, own2):
+            out.append(('C19/%s/scope/after-both/rejected-legal' % kind, 'the first container rejects a value of its own measure after the other scope resolved the name', {'kind': kind, 'order': order}))
+    return out
+
+
 def main():
     args = common.parse_args(sys.argv[1:])
     if args.replay:
@@ -653,6 +712,18 @@ def main():
     for key in sorted(merged):
         n, what, case, nops = merged[key]
         chk.violation(key, what, case)
+    # the same type NAME in two scopes: every container kind x both orders, each in a process of its own
+    import multiprocessing as _mp
+    jobs = [(k, f) for k in KINDS for f in (0, 1)]
+    with _mp.get_context('fork').Pool(len(jobs), maxtasksperchild=1) as pool:
+        for job, vs in zip(jobs, pool.map(scope_isolation_job, jobs, 1)):
+            chk.count(states=3, transitions=5)
+            chk.cls('scope-isolation/%s' % job[0])
+            if not vs:
+                chk.outcome('scope-isolated')
+            for key, what, case in vs:
+                chk.outcome('scope-violation')
+                chk.violation(key, what, case)
         chk.viol[key]['count'] = n
     chk.bounds['depth'] = P['depth']
     chk.bounds['constructions'] = len(cxs)
